@@ -30,6 +30,8 @@ POOL = [
     "Loc", "loc", "LOC", "lOc", "1x", "f_1x", "x-y", "x.y", "x_y", "and_", "and__", "a_0", "a", "A", "object_", "o_1x", "?v", "p_?v",
     "move", "Move", "type", "instance", "goal", "in", "with", "true", "false", "increase", "assign", "define", "domain", "exists", "forall",
     "f", "g", "h", "t", "u",
+    # non-ASCII first letters (str.isalpha() is true, [a-zA-Z] is not), upper-case keywords, keyword case variants
+    "état", "Ölpumpe", "αlpha", "ñu", "UNDEFINED", "undefined", "Start", "END", "Forall", "ACTION",
 ]
 
 # Words of the PDDL 3.1 BNF that occur where a NAME token can occur (operators of goal descriptions,
@@ -43,7 +45,7 @@ PDDL_TEMPORAL_KEYWORDS = {"durative-action", "duration", "condition", "at", "ove
 ANML_CORE_KEYWORDS = {
     "action", "and", "constant", "duration", "else", "fact", "fluent", "function", "goal", "in", "instance", "predicate", "when", "with",
     "exists", "forall", "implies", "iff", "not", "or", "xor", "all", "end", "start", "false", "true", "infinity", "object", "type",
-    "boolean", "integer", "float",
+    "boolean", "integer", "float", "UNDEFINED",
 }
 
 
